@@ -66,6 +66,9 @@ func (r *Run) EffectTable(keep func(tableRow) bool, why string) int {
 				for _, e := range r.P.Effects(fn) {
 					set[e.Canon] = true
 				}
+				for c := range r.P.NewHelperEffects(fn) {
+					set[c] = true
+				}
 			}
 			byFn[row.F] = set
 		}
@@ -250,6 +253,18 @@ func (r *Run) successForms(fn *ssa.Function) []string {
 		b := e.Instr.Block()
 		if fi.failExit[b] {
 			continue
+		}
+		// a predicate returning the comparison itself can return true: one form with `return true`
+		if res := fn.Signature.Results(); res.Len() == 1 && isBool(res.At(0).Type()) {
+			if ret, ok := e.Instr.(*ssa.Return); ok && len(ret.Results) == 1 {
+				v := retOperand(ret, 0)
+				if _, isC := v.(*ssa.Const); !isC {
+					if c := r.P.Env(fn).condOf(v); c.Op != "T" && c.Op != "F" {
+						set["return true"] = true
+						continue
+					}
+				}
+			}
 		}
 		set[e.Canon] = true
 	}
@@ -762,6 +777,11 @@ func plainBranches(r *Run, fn *ssa.Function) []string {
 		if loggingOnlyFork(g) {
 			continue
 		}
+		// error plumbing (comparing an error value with nil or a sentinel) is not a data condition:
+		// nested, flattened and switch spellings of one error-handling cascade fork differently
+		if bo, ok := g.If.Cond.(*ssa.BinOp); ok && (isErrorType(bo.X.Type()) || isErrorType(bo.Y.Type())) {
+			continue
+		}
 		s, n := g.Cond.String(), g.Cond.Negate().String()
 		if n < s {
 			s = n
@@ -1026,7 +1046,7 @@ func (r *Run) effectContexts(fn *ssa.Function) map[string]*ctxRow {
 		b := e.Instr.Block()
 		var cs []string
 		seen := map[string]bool{}
-		for _, c := range r.blockCtx(fn, b) {
+		for _, c := range r.dataCtx(fn, b) {
 			if s := c.String(); !seen[s] {
 				seen[s] = true
 				cs = append(cs, s)
@@ -1160,4 +1180,40 @@ func (r *Run) EffectContextTable(keep func(tableRow) bool, why string) int {
 		r.viol("vacuous-rule", "", "effect context table", "no table row matched", why, "", 0)
 	}
 	return n
+}
+
+//go:embed tables/known_funcs.json
+var knownFuncsJSON []byte
+
+func init() {
+	var names []string
+	if err := json.Unmarshal(knownFuncsJSON, &names); err == nil && len(names) > 0 {
+		knownFuncs = map[string]bool{}
+		for _, n := range names {
+			knownFuncs[n] = true
+		}
+	}
+}
+
+// dataCtx: blockCtx without the error plumbing — branches that compare an error value (with nil or
+// with a sentinel). `if err != nil { if err == ErrNotFound { return nil, nil }; return nil, err }`
+// and its flattened or switch forms put the code after them under different such conditions while
+// meaning the same; what the effect context pins is the data conditions.
+func (r *Run) dataCtx(fn *ssa.Function, b *ssa.BasicBlock) []Cond {
+	fi := r.P.Info(fn)
+	var out []Cond
+	for _, c := range fi.guards {
+		if c.Reject != "" || c.Block.Succs[0] == c.Block.Succs[1] || isLoopHeader(c.Block) {
+			continue
+		}
+		if bo, ok := c.If.Cond.(*ssa.BinOp); ok && (isErrorType(bo.X.Type()) || isErrorType(bo.Y.Type())) {
+			continue
+		}
+		if edgeDominates(c.Block, c.Block.Succs[0], b) {
+			out = append(out, c.Cond)
+		} else if edgeDominates(c.Block, c.Block.Succs[1], b) {
+			out = append(out, c.Cond.Negate())
+		}
+	}
+	return out
 }
